@@ -25,6 +25,16 @@ theorem murmur2_eq_java_int (key : List UInt8) : (murmur2 key).toInt = murmur2Ja
 
 example : murmur2 [] ≠ murmur2 [0] := by decide
 
+/-- The Spec's Java transcription reproduces the vectors of Kafka's `UtilsTest.testMurmur2`
+("21", "foobar", "a-little-bit-long-string", "a-little-bit-longer-string",
+"lkjh234lh9fiuh90y23oiuhsafujhadof229phr9h19h89h8", "abc"), as remembered; checked by the kernel. -/
+example : murmur2Java [0x32, 0x31] = -973932308 := by decide
+example : murmur2Java [0x66, 0x6f, 0x6f, 0x62, 0x61, 0x72] = -790332482 := by decide
+example : murmur2Java [0x61, 0x2d, 0x6c, 0x69, 0x74, 0x74, 0x6c, 0x65, 0x2d, 0x62, 0x69, 0x74, 0x2d, 0x6c, 0x6f, 0x6e, 0x67, 0x2d, 0x73, 0x74, 0x72, 0x69, 0x6e, 0x67] = -985981536 := by decide
+example : murmur2Java [0x61, 0x2d, 0x6c, 0x69, 0x74, 0x74, 0x6c, 0x65, 0x2d, 0x62, 0x69, 0x74, 0x2d, 0x6c, 0x6f, 0x6e, 0x67, 0x65, 0x72, 0x2d, 0x73, 0x74, 0x72, 0x69, 0x6e, 0x67] = -1486304829 := by decide
+example : murmur2Java [0x6c, 0x6b, 0x6a, 0x68, 0x32, 0x33, 0x34, 0x6c, 0x68, 0x39, 0x66, 0x69, 0x75, 0x68, 0x39, 0x30, 0x79, 0x32, 0x33, 0x6f, 0x69, 0x75, 0x68, 0x73, 0x61, 0x66, 0x75, 0x6a, 0x68, 0x61, 0x64, 0x6f, 0x66, 0x32, 0x32, 0x39, 0x70, 0x68, 0x72, 0x39, 0x68, 0x31, 0x39, 0x68, 0x38, 0x39, 0x68, 0x38] = -58897971 := by decide
+example : murmur2Java [0x61, 0x62, 0x63] = 479470107 := by decide
+
 /-! ### hashers: formulas, for every hash value / key and every n ≥ 1 -/
 
 /-- `KafkaHasher(f)(key, n) = toPositive(int32 f(key)) % n` (sign bit masked, then modulo), never panics. -/
